@@ -78,12 +78,12 @@ def base_step(genotype: A[i1, 2], reads: A[f8, 3], llk: float, h: int, j: int, n
     requires(forall(0, n_alleles, lambda a: not isninf(LLKU(reads, CN, genotype, h, j, a, P, N, len(reads)))))
     # C09: the carried likelihood is the likelihood of the current genotype
     requires(llk == LLK(reads, CN, genotype, P, N, len(reads)))
-    requires(implies(cache is not None, AMOK(cache) and cache[2] == P * N and n_alleles <= cache[0].shape[1] and forall(0, P, lambda x: forall(0, N, lambda y: old(genotype)[x, y] < cache[0].shape[1]))))
+    requires(implies(cache is not None, AMOK(cache, len(cache[0]), cache[0].shape[1], len(cache[1])) and cache[2] == P * N and n_alleles <= cache[0].shape[1] and forall(0, P, lambda x: forall(0, N, lambda y: old(genotype)[x, y] < cache[0].shape[1]))))
     requires(implies(cache is not None, COH(cache, reads, CN, P, N, len(reads))))
     modifies(genotype, cache)
     # C09: ... and so is the returned one, for the updated genotype
     ensures(result[0] == LLK(reads, CN, genotype, P, N, len(reads)))
-    ensures(implies(cache is not None, AMOK(result[1]) and result[1][2] == cache[2] and result[1][0].shape[1] == cache[0].shape[1]))
+    ensures(implies(cache is not None, AMOK(result[1], len(result[1][0]), result[1][0].shape[1], len(result[1][1])) and result[1][2] == cache[2] and result[1][0].shape[1] == cache[0].shape[1]))
     ensures(implies(cache is not None, COH(result[1], reads, CN, P, N, len(reads))))
     # only cell (h, j) may change, and it stays a valid allele of this SNV
     ensures(forall(0, P, lambda x: forall(0, N, lambda y: implies(x != h or y != j, genotype[x, y] == old(genotype)[x, y]))))
@@ -104,7 +104,7 @@ def base_step(genotype: A[i1, 2], reads: A[f8, 3], llk: float, h: int, j: int, n
         invariant(lprior == GPRIOR(old(genotype), P, N, log_unique_haplotypes, inbreeding), lhapcount == log(1 + NCOPIES(old(genotype), h, N, P)), finite(lprior))
         invariant(forall(0, i, lambda a: implies(a != current_nucleotide, log_accept[a] == MHLOG(reads, CN, old(genotype), h, j, a, P, N, len(reads), log_unique_haplotypes, inbreeding, temp))))
         invariant(forall(0, i, lambda a: not isnan(log_accept[a]) and implies(not isninf(log_accept[a]), log_accept[a] <= 0)))
-        invariant(implies(cache is not None, AMOK(cache) and cache[2] == P * N and n_alleles <= cache[0].shape[1] and forall(0, P, lambda x: forall(0, N, lambda y: old(genotype)[x, y] < cache[0].shape[1]))))
+        invariant(implies(cache is not None, AMOK(cache, len(cache[0]), cache[0].shape[1], len(cache[1])) and cache[2] == P * N and n_alleles <= cache[0].shape[1] and forall(0, P, lambda x: forall(0, N, lambda y: old(genotype)[x, y] < cache[0].shape[1]))))
         invariant(implies(cache is not None, COH(cache, reads, CN, P, N, len(reads))))
         with head():
             unfold(LLKU(reads, CN, old(genotype), h, j, i, P, N, len(reads)))
@@ -162,13 +162,13 @@ def compound_step(genotype: A[i1, 2], reads: A[f8, 3], llk: float, n_alleles: A[
     requires(READSOK(reads, len(reads), reads.shape[1], reads.shape[2]))
     requires(POSREADS(reads, CN, n_alleles, PP, NN, len(reads)))
     requires(llk == LLK(reads, CN, genotype, PP, NN, len(reads)))
-    requires(implies(cache is not None, AMOK(cache) and cache[2] == PP * NN and forall(0, NN, lambda y: n_alleles[y] <= cache[0].shape[1])))
+    requires(implies(cache is not None, AMOK(cache, len(cache[0]), cache[0].shape[1], len(cache[1])) and cache[2] == PP * NN and forall(0, NN, lambda y: n_alleles[y] <= cache[0].shape[1])))
     requires(implies(cache is not None, COH(cache, reads, CN, PP, NN, len(reads))))
     modifies(genotype, cache)
     # C09: the returned likelihood is the likelihood of the genotype left behind by the sweep
     ensures(result[0] == LLK(reads, CN, genotype, PP, NN, len(reads)))
     ensures(VALIDG(genotype, n_alleles, PP, NN))
-    ensures(implies(cache is not None, AMOK(result[1]) and result[1][2] == cache[2] and result[1][0].shape[1] == cache[0].shape[1]))
+    ensures(implies(cache is not None, AMOK(result[1], len(result[1][0]), result[1][0].shape[1], len(result[1][1])) and result[1][2] == cache[2] and result[1][0].shape[1] == cache[0].shape[1]))
     ensures(implies(cache is not None, COH(result[1], reads, CN, PP, NN, len(reads))))
     with defs():
         PP = len(genotype)
@@ -189,7 +189,7 @@ def compound_step(genotype: A[i1, 2], reads: A[f8, 3], llk: float, n_alleles: A[
         invariant(forall(0, ploidy * n_base, lambda s: substeps[s, 0] == shuffle0(s) // n_base and substeps[s, 1] == shuffle0(s) % n_base))
         invariant(forall(0, ploidy * n_base, lambda s: 0 <= shuffle0(s) and shuffle0(s) < ploidy * n_base))
         invariant(llk == LLK(reads, CN, genotype, PP, NN, len(reads)), VALIDG(genotype, n_alleles, PP, NN))
-        invariant(implies(cache is not None, AMOK(cache) and cache[2] == PP * NN and forall(0, NN, lambda y: n_alleles[y] <= cache[0].shape[1])))
+        invariant(implies(cache is not None, AMOK(cache, len(cache[0]), cache[0].shape[1], len(cache[1])) and cache[2] == PP * NN and forall(0, NN, lambda y: n_alleles[y] <= cache[0].shape[1])))
         invariant(implies(cache is not None, COH(cache, reads, CN, PP, NN, len(reads))))
         with head():
             lemma_divmod_range(shuffle0(i), n_base, ploidy)
